@@ -105,6 +105,12 @@ func c11(r *Report) {
 	sort.Slice(ks, func(i, j int) bool { return ks[i] < ks[j] })
 
 	r.Guard("C11.R1", "every encoding is decoded and re-encoded by inverse codecs of the same wire format; all switches cover all encodings", func() {
+		// a message that cannot be decoded or re-encoded is an error of the stream, not a
+		// message passed on undecoded
+		for _, n := range []string{"adapter.Data", "adapter.Header", "emitter.Message"} {
+			errorsReturnedRule(r, r.W.Fn("h2/grpc", n), false)
+		}
+
 		in := switchCases(ad, isEncodingLoad)
 		out := switchCases(em, isEncodingLoad)
 		pairs := [][2]string{
@@ -218,6 +224,31 @@ func c11(r *Report) {
 	})
 
 	r.Guard("C11.R2", "the 5-byte message prefix is read and written the same way", func() {
+		// every message is a container of its own: its encoder is created for it, closed
+		// (which writes the container's end and, for snappy, makes the next message start
+		// with a stream identifier again) and not kept in the emitter between messages
+		for _, c := range plainCalls(em, "compress/gzip.NewWriter", "compress/flate.NewWriter", "github.com/golang/snappy.NewBufferedWriter", "github.com/golang/snappy.NewWriter", "compress/gzip.NewWriterLevel") {
+			var wv ssa.Value = c
+			if c.Call.Signature().Results().Len() > 1 {
+				wv = resultOf(c, 0)
+			}
+			kept := false
+			closed := false
+			if wv != nil && wv.Referrers() != nil {
+				for _, u := range *wv.Referrers() {
+					if st, ok := u.(*ssa.Store); ok && st.Val == wv {
+						if _, isFa := st.Addr.(*ssa.FieldAddr); isFa {
+							kept = true
+						}
+					}
+					if cc, ok := u.(*ssa.Call); ok && strings.HasSuffix(calleeName(cc), ".Close") && len(cc.Call.Args) > 0 && cc.Call.Args[0] == wv {
+						closed = true
+					}
+				}
+			}
+			r.Decide("flow", "(*M/h2/grpc.emitter).Message: "+site(em, c)+" serves one message", closed && !kept, "the encoder is closed in the call that made it and is not stored in a field", "the encoder outlives the message (kept in a field, flushed instead of closed): later messages on the stream are not complete containers of their own and the receiver rejects them", c.Pos())
+		}
+
 		// The prefix codec, in either of the two idioms: binary.Read / binary.Write with an explicit
 		// byte order, or the ByteOrder methods (Uint32 / PutUint32 / AppendUint32).
 		type prefixIO struct {
